@@ -1299,6 +1299,11 @@ class Engine:
         if isinstance(target, ast.Attribute):
             obj = self.ev(target.value, st)
             if isinstance(obj, SRecord):
+                hook = self.c.calls.get('property-set:' + target.attr)
+                if hook is not None:
+                    # (C38) assignment through a @<name>.setter of the record's class (the contract runs the real setter)
+                    hook(self, st, [obj, v], {}, target)
+                    return
                 obj.fields[target.attr] = v
                 return
             hook = self.c.calls.get('setattr:' + target.attr)
@@ -1753,6 +1758,11 @@ class Engine:
         if isinstance(base, SRecord):
             if attr in base.fields:
                 return base.fields[attr]
+            hook = self.c.calls.get('property:' + attr)
+            if hook is not None:
+                # (C38) a @property of the record's class, given a meaning by the contract (typically the real getter inlined);
+                # without the hook an unknown attribute of a record stays a bound method as before
+                return hook(self, st, [base], {}, node)
             return ('boundmethod', base, attr)
         if isinstance(base, SDotted):
             name = base.name + '.' + attr
@@ -2605,8 +2615,8 @@ class Engine:
                 return self.uf('str_int', ['int'], 'str')(v)
             if v.sort() == U:
                 return self.uf('str_U', ['U'], 'str')(v)
-        if isinstance(v, (SRecord, tuple, SList, SMap)):
-            # the text of an object / container (log messages, error texts): some string, nothing is known about it
+        if isinstance(v, (SRecord, tuple, SList, SMap, SExc)):
+            # the text of an object / container / caught exception (log messages, error texts): some string, nothing is known about it
             return z3.String(fresh_name('str_of_object'))
         raise Undecided('str() of %r' % (v,))
 
